@@ -85,7 +85,7 @@ def expected(P, args, pol, bv, params):
     finite = math.isfinite(v)
     opv = viol(opb, v, bv)
     osv = viol(ob, v, bv) and pol != 0
-    e = {"value": v, "tol": tol, "events": list(ev.events), "body": True}
+    e = {"value": v, "tol": tol, "events": list(ev.events), "body": True, "opv": opv, "osv": osv}
     if not ev.events and finite:
         if opv:
             e.update(path="physical.output", acc={(-1, -(n + 1))}, nan=True)
@@ -282,7 +282,8 @@ def check_call(P, m, r, params, longb):
         if st == -1 and path in ("strict", "strict.output") and 1 <= -bs <= P.nin + 1:
             key = "C38.errno.strict." + bound_kind(P, -bs)
         elif st == -1 and path.startswith("event"):
-            key = "C38.errno.event_output_bounds"
+            # a non-finite result that violates the bounds of the output: same exits as above
+            key = "C38.errno.physical.output" if e.get("opv") else "C38.errno.strict." + bound_kind(P, P.nin + 1)
         else:
             key = "C38.errno." + path
         fails.append((key, call + "; errno is not reset to the value it had before the call [%s]" % path))
